@@ -25,4 +25,11 @@ theorem freerq_protocol : Generated.freerqSync =
 /-- no other function of the sources writes a request's count (newrequest initialises it before the object is shared) -/
 theorem refcount_writers : Generated.rqRefcountWriters = some ["freerq", "newrequest", "newrqref"] := by decide
 
+/-- a UDP association is a (listening socket, source) pair: the scan of `radudpget` over a client block's associations passes over
+    every association of ANOTHER socket before it compares addresses, refreshes or expires anything (the guard is regenerated from the
+    source; the model and the harness have one UDP listener, so this clause of "the same association" rests on the tie) -/
+theorem udp_scan_other_socket_tie : ∀ f ∈ Generated.udpScanOtherSocket, ∀ s c : Int, f s c = decide (s ≠ c) := by
+  intro f hf s c
+  simp only [Generated.udpScanOtherSocket, Option.mem_def, Option.some.injEq, reduceCtorEq] at hf <;> (subst hf; rfl)
+
 end Rsp.Tie.C17
